@@ -666,6 +666,8 @@ func runHostile(e *env, kind, resKind string, idx int) {
 		b := pack(good)
 		if len(b) > 4 && (p.Name == "raw" || p.Name == "json" || p.Name == "pb") {
 			b[0], b[1], b[2], b[3] = 0xff, 0xff, 0xff, 0xff
+		} else {
+			kind = "good" // no length prefix to patch on this protocol: this is simply a well-formed reply
 		}
 		writes = append(writes, b)
 	case "call-type-same-seq":
@@ -677,6 +679,8 @@ func runHostile(e *env, kind, resKind string, idx int) {
 		b := pack(mk(seq, codec.ID_JSON, `{"tok":"r"}`, "z"))
 		if len(b) > 5 && (p.Name == "raw" || p.Name == "json" || p.Name == "pb") {
 			b[5] = 0x7e
+		} else {
+			kind = "good" // the pipe id is not at a fixed offset here: a well-formed reply through a registered filter
 		}
 		writes = append(writes, b)
 	case "empty-body":
